@@ -39,7 +39,7 @@ TRACK_B = ("HardDrums", ["5 = N 1 0", "100 = N 2 0", "100 = N 3 0", "200 = S 2 1
 TRACK_C = ("EasyKeyboard", ["7 = E ev", "9 = N 2 1", "193 = N 2 1", "385 = N 0 0"])
 TRACK_D = ("MediumGHLCoop", ["1 = S 2 3", "2 = N 4 0", "383 = N 3 2", "385 = E x"])
 
-UNKNOWN_NAMES = ("Foo", "ExpertSingle ", "expertsingle", "Song2", "Song]", "Events][old", "ExpertSingle][backup", "MediumKeyboard] x", "[SyncTrack", "XSong")
+UNKNOWN_NAMES = ("Foo", "ExpertSingle ", "expertsingle", "Song2", "Song]", "Events][old", "ExpertSingle][backup", "MediumKeyboard] x", "[SyncTrack", "XSong", "Expert Single", "ExpertSingle2", "ExpertSingl", "Events2", "SyncTrack ", "ExpertVocals")
 # (body lines, indentation)
 UNKNOWN_BODIES = (
     (["Resolution = 1", "0 = B 1", "0 = N 0 0", '0 = E "section q"'], "  "),
